@@ -21,6 +21,7 @@ ASSUMPTIONS = [
     "ruff is replaced by an identity stand-in when the plugin formats its output",
 ]
 FLOORS = {"quick": {"evaluations": 1500, "configs_checked": 12000}, "thorough": {"evaluations": 60000, "configs_checked": 480000}}
+ANCHORS = ['Message.to_dict', 'Message._from_dict_init', 'Message.from_dict', 'camel_case', 'safe_snake_case', '_Timestamp.timestamp_to_json', '_Duration.delta_to_json']
 CONTRACTS = ["bytes"]
 
 CONFIGS = [(c, p, f) for c in ("CAMEL", "SNAKE") for p in ("dict", "json") for f in ("classmethod", "instance")]
